@@ -88,6 +88,11 @@ def present(f, spcnames):
     names = [k for k in spcnames if k in names] + \
         [k for k in names if k not in spcnames]
     out['names'] = [str(k) for k in names]
+    # every variable is loaded once before any is looked at: what a variable
+    # holds must not depend on which other variables were loaded after it
+    for k in spcnames:
+        if k in f.variables:
+            f.variables[k][...]
     for k in spcnames:
         if k not in f.variables:
             out['data'].append([])
